@@ -5,7 +5,7 @@ import numpy as np
 
 from .. import certs, gen, ref
 from ..core import FAILED
-from .C10 import arr, make_ensemble
+from .C10 import arr, make_ensemble, rotate_input
 
 DECIDING = ["O1:povm-valid", "O1:povm-attains-value", "O1:dual-certificate", "O2:primal=dual", "O2:range", "O2:unitary-invariant", "O2:two-state-closed-form",
             "O3:antidistinguishable=>0", "O3:positive=>not-antidistinguishable", "O3:common-quantum-overlap", "O4:unambiguous-primal=dual"]
@@ -102,12 +102,12 @@ def _run_ens(ctx, spec, rng):
         want = 0.5 * (1 - ref.trace_norm(p[0] * rhos[0] - p[1] * rhos[1]))
         ctx.check("O2:two-state-closed-form", None, dev=abs(v - want), tol=TOLV, sig=sig, nt=nt, mech="state_exclusion:two-state-mismatch", detail={"value": v, "want": want})
     u = gen.haar(rng, d, real=not e["cplx"])
-    rot = [u @ x @ u.conj().T for x in e["inp"]] if e["form"].startswith("dm") else [u @ x for x in e["inp"]]
+    rot = [rotate_input(u, x, e["form"]) for x in e["inp"]]
     res = _solve(ctx, state_exclusion, rot, list(p))
     if res is not None:
         ctx.check("O2:unitary-invariant", None, dev=abs(float(np.real(res[0])) - v), tol=TOLV, sig=sig, nt=nt, mech="state_exclusion:not-unitary-invariant", detail={"value": v, "rotated": res[0]})
     # unambiguous variant: agreement only where the solver returns
-    if r % 2 == 0:
+    if r % 2 == 0 and not e["form"].startswith(("row", "mixed")):
         up = _solve(ctx, state_exclusion, _fresh(e["inp"]), list(p), strategy="unambiguous", primal_dual="primal", mech=f"crash:state_exclusion-unambiguous-primal[{field}]")
         ud = _solve(ctx, state_exclusion, _fresh(e["inp"]), list(p), strategy="unambiguous", primal_dual="dual", mech=f"crash:state_exclusion-unambiguous-dual[{field}]")
         if up is not None and ud is not None and up[0] is not None and ud[0] is not None:
